@@ -778,8 +778,8 @@ def check_vtt(pid, tier, seed, scratch, replay):
 def check_ssa(pid, tier, seed, scratch, replay):
     return codec_check(pid, tier, seed, scratch, dict(
         name="ssa", gen_module="GenSsa", gen_cfg="GenSsa.cfg", drive_cmd="ssa", trace_module="TraceSsa", trace_cfg="TraceSsa.cfg",
-        mc=[("SsaMC", "MC_Ssa_S.cfg", None), ("SsaMC", "MC_Ssa_E.cfg", None), ("SsaMC", "MC_Ssa_F.cfg", None)],
-        gens=[(dict(GEN_FAM="S"), 2, 2, None), (dict(GEN_FAM="E"), 6, 6, None), (dict(GEN_FAM="F"), 3, 3, None),
+        mc=[("SsaMC", "MC_Ssa_S.cfg", None), ("SsaMC", "MC_Ssa_E.cfg", None), ("SsaMC", "MC_Ssa_F.cfg", None), ("SsaMC", "MC_Ssa_I.cfg", None)],
+        gens=[(dict(GEN_FAM="S"), 2, 2, None), (dict(GEN_FAM="E"), 6, 6, None), (dict(GEN_FAM="F"), 3, 3, None), (dict(GEN_FAM="I"), 1, 1, None),
               (dict(GEN_FAM="S", GEN_WIDE=1), 0, 4, "thorough"), (dict(GEN_FAM="E", GEN_WIDE=1), 0, 16, "thorough"), (dict(GEN_FAM="F", GEN_WIDE=1), 0, 4, "thorough")],
         nrand=(0, 0), per_jvm=2000,
         rule=("TLC enumerates ground truths of three families - S: one style over Name + 4 typed columns (string, float, colour, "
